@@ -555,6 +555,12 @@ def run(ctx):
                                    'tlc_clauses': m.group(3)})
     ctx.extra['trace_events_validated_by_tlc'] = len(events)
     ctx.extra['trace_events_rejected_by_tlc'] = nfail
+
+    # ---- 5. harvest: lincomb calls made inside the repository's own tests (hook ODL_VERIF_TRACE) ----
+    from .. import harvest as H
+    for sig, detail in H.harvest(ctx, {'lincomb'}, H.QUICK_MODULES if quick else H.THOROUGH_MODULES,
+                                 ('lincomb-value', 'lincomb-operand-modified', 'lincomb-does-not-return-out')):
+        ctx.violation(sig, detail)
     ctx.exhaustive = True   # the exported transition set is the complete (state, action) product of the bounded machine
 
 
